@@ -59,6 +59,225 @@ def _eval(expr, env, depth=0):
         return None
 
 
+
+# ---------------------------------------------------------------- C expression -> Lean `CExpr` (timeout conversion)
+class _CParse:
+    """Recursive descent over the C expression subset  ?:  < <= > >= == !=  + -  * /  casts  literals  `timeout`.
+    Emits a Lean `CExpr` term; anything else raises ValueError (-> `.unparsed`)."""
+    CASTS = {"uint64_t": "u64", "int64_t": "i64", "uint32_t": "u32", "int32_t": "i32", "int": "i32", "unsigned": "u32", "unsigned int": "u32",
+             "long": "i64", "long long": "i64", "unsigned long": "u64", "unsigned long long": "u64", "size_t": "u64"}
+
+    def __init__(self, text, var):
+        self.toks = re.findall(r"[A-Za-z_][A-Za-z0-9_]*|0[xX][0-9a-fA-F]+[uUlL]*|\d+[uUlL]*|==|!=|<=|>=|[-+*/()?:<>]", text)
+        if "".join(self.toks) != re.sub(r"\s+", "", text):
+            raise ValueError("untokenisable: " + text)
+        self.i, self.var = 0, var
+
+    def peek(self):
+        return self.toks[self.i] if self.i < len(self.toks) else None
+
+    def eat(self, t=None):
+        x = self.peek()
+        if x is None or (t is not None and x != t):
+            raise ValueError("expected %s got %s" % (t, x))
+        self.i += 1
+        return x
+
+    def parse(self):
+        e = self.ternary()
+        if self.peek() is not None:
+            raise ValueError("trailing tokens")
+        return e
+
+    def ternary(self):
+        c = self.rel()
+        if self.peek() == "?":
+            self.eat("?"); a = self.ternary(); self.eat(":"); b = self.ternary()
+            return "(.cond %s %s %s)" % (c, a, b)
+        return c
+
+    def rel(self):
+        a = self.add()
+        ops = {">": "gt", ">=": "ge", "<": "lt", "<=": "le", "==": "eq", "!=": "ne"}
+        while self.peek() in ops:
+            o = ops[self.eat()]; b = self.add()
+            a = "(.%s %s %s)" % (o, a, b)
+        return a
+
+    def add(self):
+        a = self.mul()
+        while self.peek() in ("+", "-"):
+            o = "add" if self.eat() == "+" else "sub"; b = self.mul()
+            a = "(.%s %s %s)" % (o, a, b)
+        return a
+
+    def mul(self):
+        a = self.unary()
+        while self.peek() in ("*",):
+            self.eat(); b = self.unary()
+            a = "(.mul %s %s)" % (a, b)
+        return a
+
+    def unary(self):
+        if self.peek() == "(":
+            # cast?
+            j = self.i + 1; words = []
+            while j < len(self.toks) and re.fullmatch(r"[A-Za-z_]\w*", self.toks[j]):
+                words.append(self.toks[j]); j += 1
+            if words and j < len(self.toks) and self.toks[j] == ")" and " ".join(words) in self.CASTS:
+                self.i = j + 1
+                return "(.cast .%s %s)" % (self.CASTS[" ".join(words)], self.unary())
+            self.eat("("); e = self.ternary(); self.eat(")")
+            return e
+        t = self.eat()
+        if t == self.var:
+            return ".var"
+        m = re.fullmatch(r"(0[xX][0-9a-fA-F]+|\d+)([uUlL]*)", t)
+        if not m:
+            raise ValueError("unknown token " + t)
+        v = int(m.group(1), 0); suf = m.group(2).lower()
+        if "u" in suf and "l" in suf:
+            ty = "u64"
+        elif "l" in suf:
+            ty = "i64"
+        elif "u" in suf:
+            ty = "u32" if v < 2 ** 32 else "u64"
+        else:
+            ty = "i32" if v < 2 ** 31 else "i64"
+        return "(.lit %d .%s)" % (v, ty)
+
+
+def _timeout_expr(scannerc):
+    m = re.search(r"void\s+yr_scanner_set_timeout\s*\(\s*YR_SCANNER\s*\*\s*scanner\s*,\s*int\s+(\w+)\s*\)\s*\{(.*?)\n\}", scannerc, flags=re.S)
+    if not m:
+        return None
+    var, body = m.group(1), m.group(2).strip()
+    m2 = re.fullmatch(r"scanner->timeout\s*=\s*(.*?);", body, flags=re.S)      # exactly one statement
+    if not m2:
+        return None
+    try:
+        return _CParse(m2.group(1), var).parse()
+    except ValueError:
+        return None
+
+
+# ---------------------------------------------------------------- iterator "next" functions of exec.c
+def _split_stmts(text):
+    """Top-level statements of a C block body: returns list of (kind, data)."""
+    out, i, n = [], 0, len(text)
+
+    def skip_ws(j):
+        while j < n and text[j].isspace():
+            j += 1
+        return j
+
+    def matching(j, op, cl):
+        d = 0
+        while j < n:
+            if text[j] == op: d += 1
+            elif text[j] == cl:
+                d -= 1
+                if d == 0: return j
+            j += 1
+        raise ValueError("unbalanced")
+
+    def stmt(j):
+        j = skip_ws(j)
+        if j >= n: return None, j
+        if text.startswith("if", j) and re.match(r"if\s*\(", text[j:]):
+            k = text.index("(", j); e = matching(k, "(", ")")
+            then, j2 = stmt(e + 1)
+            j3 = skip_ws(j2)
+            els = None
+            if re.match(r"else\b", text[j3:]):
+                els, j2 = stmt(j3 + 4)
+            return ("if", text[k + 1:e], then, els), j2
+        if text[j] == "{":
+            e = matching(j, "{", "}")
+            return ("block", _split_stmts(text[j + 1:e])), e + 1
+        m = re.match(r"(\w+)\s*:(?!:)", text[j:])
+        if m and m.group(1) not in ("default",):
+            return ("label", m.group(1)), j + m.end()
+        e = text.index(";", j)
+        st = text[j:e].strip()
+        if st.startswith("goto "): return ("goto", st[5:].strip()), e + 1
+        if st.startswith("return"): return ("return", st), e + 1
+        return ("plain", st), e + 1
+
+    while True:
+        s_, i = stmt(i)
+        if s_ is None: break
+        out.append(s_)
+    return out
+
+
+def _max_pushes(stmts):
+    """Maximum number of `stack->sp++` executed on any path from the first statement to a return."""
+    labels = {s[1]: k for k, s in enumerate(stmts) if s[0] == "label"}
+    best = [0]
+
+    def run(seq, idx, cnt, cont):
+        # cont: continuation (list of (seq, idx)) to resume after this sequence ends
+        while True:
+            if idx >= len(seq):
+                if not cont:
+                    best[0] = max(best[0], cnt); return
+                (seq, idx), cont = cont[-1], cont[:-1]
+                continue
+            st = seq[idx]
+            k = st[0]
+            if k == "plain":
+                cnt += len(re.findall(r"stack->sp\+\+", st[1])); idx += 1
+            elif k == "label":
+                idx += 1
+            elif k == "return":
+                best[0] = max(best[0], cnt); return
+            elif k == "goto":
+                if st[1] not in labels: raise ValueError("goto to unknown label")
+                seq, idx, cont = stmts, labels[st[1]], []
+            elif k == "block":
+                cont = cont + [(seq, idx + 1)]; seq, idx = st[1], 0
+            elif k == "if":
+                for br in (st[2], st[3]):
+                    if br is None:
+                        run(seq, idx + 1, cnt, cont)
+                    else:
+                        run([br], 0, cnt, cont + [(seq, idx + 1)])
+                return
+            else:
+                raise ValueError(k)
+
+    run(stmts, 0, 0, [])
+    return best[0]
+
+
+def _iter_table(execc):
+    """[(name, guardK, cmp, maxPushes)] for every function in iter_next_func_table, or None."""
+    m = re.search(r"iter_next_func_table\[\]\s*=\s*\{(.*?)\}", execc, flags=re.S)
+    if not m:
+        return None
+    names = [x.strip() for x in m.group(1).split(",") if x.strip()]
+    rows = []
+    for nm in names:
+        f = re.search(r"static\s+int\s+%s\s*\(\s*YR_ITERATOR\s*\*\s*self\s*,\s*YR_VALUE_STACK\s*\*\s*stack\s*\)\s*\{(.*?)\n\}" % re.escape(nm), execc, flags=re.S)
+        if not f:
+            rows.append((nm, 0, "unparsed", 0)); continue
+        body = f.group(1)
+        try:
+            stmts = _split_stmts(body)
+            g = stmts[0]
+            gm = re.fullmatch(r"stack->sp\s*\+\s*(\d+)\s*(==|>=|>|<=|<|!=)\s*stack->capacity", g[1].strip()) if g[0] == "if" else None
+            if not gm or g[2] != ("return", "return ERROR_EXEC_STACK_OVERFLOW") or g[3] is not None:
+                rows.append((nm, 0, "unparsed", 0)); continue
+            # nothing may touch the stack before the guard and nothing else may move sp
+            rest = body[body.index("ERROR_EXEC_STACK_OVERFLOW"):]
+            if re.search(r"stack->sp\s*(\+=|-=|--|=[^=])|--\s*stack->sp|\+\+\s*stack->sp", rest):
+                rows.append((nm, 0, "unparsed", 0)); continue
+            rows.append((nm, int(gm.group(1)), CMP[gm.group(2)], _max_pushes(stmts[1:])))
+        except (ValueError, IndexError):
+            rows.append((nm, 0, "unparsed", 0))
+    return rows
+
 CMP = {"==": "eq", ">=": "ge", ">": "gt", "<": "lt", "<=": "le", "!=": "ne"}
 
 
@@ -230,7 +449,16 @@ def run(repo, outdir):
            "inductive Cmp where", "  | eq | ne | ge | gt | le | lt | unparsed", "  deriving DecidableEq, Repr", "",
            "def Cmp.eval : Cmp → Nat → Nat → Bool",
            "  | .eq, a, b => a == b", "  | .ne, a, b => a != b", "  | .ge, a, b => decide (a ≥ b)", "  | .gt, a, b => decide (a > b)",
-           "  | .le, a, b => decide (a ≤ b)", "  | .lt, a, b => decide (a < b)", "  | .unparsed, _, _ => false", ""]
+           "  | .le, a, b => decide (a ≤ b)", "  | .lt, a, b => decide (a < b)", "  | .unparsed, _, _ => false", "",
+           "/-- C integer types that occur in the translated expressions (LP64) -/",
+           "inductive CTy where", "  | i32 | u32 | i64 | u64", "  deriving DecidableEq, Repr", "",
+           "/-- C expression subset used by `yr_scanner_set_timeout` -/",
+           "inductive CExpr where",
+           "  | var | lit (v : Nat) (ty : CTy)",
+           "  | mul (a b : CExpr) | add (a b : CExpr) | sub (a b : CExpr)",
+           "  | gt (a b : CExpr) | ge (a b : CExpr) | lt (a b : CExpr) | le (a b : CExpr) | eq (a b : CExpr) | ne (a b : CExpr)",
+           "  | cond (c a b : CExpr) | cast (ty : CTy) (a : CExpr) | unparsed",
+           "  deriving Repr", ""]
     for lean, cname, v in consts:
         out.append("/-- %s -/" % cname)
         out.append("def %s : Nat := %d" % (lean, v))
@@ -243,6 +471,34 @@ def run(repo, outdir):
     out.append("def negotiationParsed : Bool := %s" % ("true" if nego else "false"))
     out.append("/-- muted strings are skipped before verification (scan.c) -/")
     out.append("def disabledTestParsed : Bool := %s" % ("true" if dis else "false"))
+    out.append("")
+    # --- timeout conversion (scanner.c yr_scanner_set_timeout) as a typed C expression
+    texpr = _timeout_expr(scannerc)
+    if texpr is None:
+        unparsed.append("scanner.c yr_scanner_set_timeout")
+        texpr = ".unparsed"
+    out.append("/-- scanner.c `yr_scanner_set_timeout`: right-hand side of `scanner->timeout = …` (`.var` = the `int timeout` argument) -/")
+    out.append("def timeoutExpr : CExpr := %s" % texpr)
+    out.append("")
+    # --- iterator next functions (exec.c): guard `stack->sp + K <op> stack->capacity` and the maximum number of slots written
+    rows = _iter_table(execc)
+    if rows is None:
+        unparsed.append("exec.c iter_next_func_table"); rows = []
+    for r_ in rows:
+        if r_[2] == "unparsed":
+            unparsed.append("exec.c " + r_[0])
+    stray = len(re.findall(r"stack->items\[stack->sp\+\+\]", re.sub(r"static\s+int\s+iter_\w+_next\s*\(.*?\n\}", "", execc, flags=re.S)))
+    if stray:
+        unparsed.append("exec.c: %d direct stack writes outside the iterator functions" % stray)
+    out.append("structure IterFn where")
+    out.append("  name : String")
+    out.append("  guardK : Nat")
+    out.append("  guardCmp : Cmp")
+    out.append("  maxPushes : Nat")
+    out.append("  deriving DecidableEq, Repr")
+    out.append("")
+    out.append("/-- exec.c `iter_*_next`: `if (stack->sp + guardK <guardCmp> stack->capacity) return ERROR_EXEC_STACK_OVERFLOW;` then at most `maxPushes` writes `stack->items[stack->sp++]` on any path -/")
+    out.append("def iterTable : List IterFn := [%s]" % ", ".join('⟨"%s", %d, .%s, %d⟩' % r_ for r_ in rows))
     out.append("")
     out.append("def unparsedItems : List String := [%s]" % ", ".join('"%s"' % u.replace('"', "'") for u in unparsed))
     out.append("")
